@@ -72,7 +72,7 @@ def _flat(x, nums, disc):
 def _tied_minima_outside(p1, p2, L):
     """own model of the situation in which line_segment_to_circle's end-point clamp (C11 finding K3) turns a tie into
     different results: the distance from the infinite line to the circle has two local minima of (nearly) the same
-    value and only one of them belongs to the segment"""
+    value that the clamp to the segment sends to different points (only one of them on the segment, or one beyond each end)"""
     a = np.asarray(p1.args[0], float); b = np.asarray(p1.args[1], float)
     c = np.asarray(p2.args[0], float); r = float(p2.args[1]); n = np.asarray(p2.args[2], float)
     ln = float(np.linalg.norm(b - a))
@@ -90,7 +90,10 @@ def _tied_minima_outside(p1, p2, L):
     best = f[loc].min()
     tied = [i for i in loc if f[i] <= best + 5e-3 * L]
     inside = [0.0 <= t[i] <= ln for i in tied]
-    return bool(len(tied) >= 2 and any(inside) and not all(inside))
+    clamped = sorted(float(np.clip(t[i], 0.0, ln)) for i in tied)
+    # at least one tied candidate outside the segment, and the candidates end up at different points of the segment
+    # (one inside / one outside, or beyond the two different ends)
+    return bool(len(tied) >= 2 and not all(inside) and clamped[-1] - clamped[0] > 1e-9 * max(ln, 1.0))
 
 
 def make_call(rng, idx, tier):
@@ -122,7 +125,7 @@ def make_call(rng, idx, tier):
             # roots tie, so the modes may settle on different iterates; the accuracy stated for this solver (C11) applies
             tol = 5e-3
             if name == "line_segment_to_circle":
-                tags = {"tied_line_minima_one_outside_segment": _tied_minima_outside(p1, p2, L)}
+                tags = {"tied_line_minima_clamp_differently": _tied_minima_outside(p1, p2, L)}
         return {"fn": "distance." + name, "thunk": th, "L": L, "tags": tags,
                 "tol": tol, "discrete": "always", "cls": "structured" if sc.structured else ("contact" if sc.contact else "generic"),
                 "desc": {"p1": p1.describe(), "p2": p2.describe()}, "tolmap": {"points": 1e-7}}
